@@ -92,6 +92,15 @@ CrashProbe ==
   /\ l' = l + 1 /\ UNCHANGED <<s, pend, seg>>
   /\ Mark(l + 1)
 
+(* the server is crashed after the last call returned: the recovered tree is the durable state or a later prefix of  *)
+(* the acknowledged-unstable operations, in the order of the linearization found                                     *)
+FinalCrash ==
+  /\ l <= N /\ Trace[l].ev = "crashfinal"
+  /\ DOMAIN pend = {}
+  /\ Trace[l].ok /\ MatchIdx(Candidates(s, <<>>), Trace[l].dump) # 0
+  /\ l' = l + 1 /\ UNCHANGED <<s, pend, seg>>
+  /\ Mark(l + 1)
+
 Restart ==  \* clean restart during the sequential set-up (everything so far was acknowledged stable)
   /\ l <= N /\ Trace[l].ev = "restart" /\ DOMAIN pend = {}
   /\ s' = AfterRecovery(s, s.objs) /\ l' = l + 1 /\ UNCHANGED <<pend, seg>>
@@ -101,7 +110,7 @@ Skip ==    \* abandon this history
   /\ l <= N /\ ~IsReset(l) /\ seg >= 0
   /\ l' = NextReset(l) /\ s' = InitState("", TRUE) /\ pend' = NoPend /\ seg' = -2
 
-LNext == DoReset \/ Inv \/ Ret \/ Final \/ CrashProbe \/ Restart \/ Skip \/ \E c \in DOMAIN pend : Lin(c)
+LNext == DoReset \/ Inv \/ Ret \/ Final \/ FinalCrash \/ CrashProbe \/ Restart \/ Skip \/ \E c \in DOMAIN pend : Lin(c)
 LSpec == LInit /\ [][LNext]_vars
 
 (* one line per history: the furthest line reached *)
